@@ -46,10 +46,11 @@ func canonFile(in *descriptorpb.FileDescriptorProto) (*descriptorpb.FileDescript
 			}
 			var lines []string
 			for _, l := range strings.Split(loc.GetLeadingComments(), "\n") {
-				l = strings.TrimSpace(l)
+				// "// text" reads back as " text": one leading blank is the comment marker's, anything else is the text's
+				l = strings.TrimPrefix(l, " ")
 				lines = append(lines, l)
 			}
-			txt := strings.TrimSpace(strings.Join(lines, "\n"))
+			txt := strings.Trim(strings.Join(lines, "\n"), "\n")
 			if txt != "" {
 				comments[fmt.Sprint(loc.Path)] = txt
 			}
